@@ -87,6 +87,10 @@ type Connection struct {
 	// Callbacks
 	onFrame      func(*Connection, *protocol.Frame)
 	onDisconnect func(*Connection, error)
+
+	// disconnectHandled is set once the owning Manager has processed the
+	// teardown of this connection. Guarded by Manager.mu.
+	disconnectHandled bool
 }
 
 // ConnectionConfig contains configuration for a connection.
